@@ -13,6 +13,8 @@ import (
 	"github.com/dcaiafa/lox/verifharness/lib/pgo"
 	"github.com/dcaiafa/lox/verifharness/lib/shrink"
 	"pgregory.net/rapid"
+	"regexp"
+	"strconv"
 )
 
 type Case struct {
@@ -56,7 +58,26 @@ func genCase(rt *rapid.T, run *ev.Run) *Case {
 			}
 			e := cfgm.Term{Kind: cfgm.KErr}
 			var p cfgm.Prod
-			switch rapid.IntRange(0, 4).Draw(rt, "eshape") {
+			anyRule := func(l string) cfgm.Term {
+				return cfgm.Term{Kind: cfgm.KSym, Name: g.Rules[rapid.IntRange(0, len(g.Rules)-1).Draw(rt, l)].Name}
+			}
+			switch rapid.IntRange(0, 8).Draw(rt, "eshape") {
+			case 8: // a nullable rule reached through a unit production, directly before @error: before ERROR can be
+				// shifted the parser has to reduce an empty production AND a non-empty one
+				u1, u2 := "eua", "eub"
+				g.Rules = append(g.Rules,
+					cfgm.Rule{Name: u1, Prods: []cfgm.Prod{{Terms: []cfgm.Term{{Kind: cfgm.KSym, Name: u2}}}}},
+					cfgm.Rule{Name: u2, Prods: []cfgm.Prod{{}, {Terms: []cfgm.Term{tok("eut")}}}})
+				p.Terms = []cfgm.Term{{Kind: cfgm.KSym, Name: u1}, e, tok("et1")}
+				if rapid.Bool().Draw(rt, "eu-noend") {
+					p.Terms = p.Terms[:2]
+				}
+			case 5: // a (possibly nullable) rule directly before @error: reductions have to happen before ERROR can be shifted
+				p.Terms = []cfgm.Term{anyRule("er0"), e, tok("et1")}
+			case 6:
+				p.Terms = []cfgm.Term{anyRule("er0"), e}
+			case 7:
+				p.Terms = []cfgm.Term{tok("et0"), anyRule("er0"), anyRule("er1"), e, tok("et1")}
 			case 0:
 				p.Terms = []cfgm.Term{e}
 			case 1:
@@ -324,6 +345,9 @@ func eval(run *ev.Run, cases []*Case, count bool) ([]verdict, error) {
 		p := cfgm.Desugar(c.G)
 		for k, w := range c.Inputs {
 			r := o.Results[k]
+			if r.Skipped {
+				continue
+			}
 			if count {
 				run.Eval(1)
 				if r.Errs > 0 || (r.Panic == "" && !r.OK) {
@@ -339,7 +363,8 @@ func eval(run *ev.Run, cases []*Case, count bool) ([]verdict, error) {
 			}
 			if f, d := judge(p, w, r); f != "" {
 				if f == "blame" && run.Known(knownBottomUp) && !hasErrSugar(c.G) &&
-					bottomUpSignature(lxOf(c), p, w, r.OK, r.ErrToks, cfgm.FirstBad(p, oracleInput(w))) {
+					(bottomUpSignature(lxOf(c), p, w, r.OK, r.ErrToks, cfgm.FirstBad(p, oracleInput(w))) ||
+						treeOrderSignature(r, cfgm.FirstBad(p, oracleInput(w)))) {
 					// listed finding: detection blames the right token, but Errors are delivered in bottom-up
 					// action order (nested / right-recursive @error productions reduce first)
 					run.KnownHit(knownBottomUp, "Error of the first offending token delivered after Errors of later tokens (bottom-up action order)")
@@ -403,6 +428,34 @@ func shrinkCase(run *ev.Run, c *Case, facet string) *Case {
 		return res
 	}
 	return shrink.Greedy(c, cands, failing, 14)
+}
+
+var errLeaf = regexp.MustCompile(`\bE(-?\d+)\b`)
+
+// treeOrderSignature is the second form of the listed finding "bottom-up delivery order" (for
+// parses that succeed, where the result tree is available): reading the result tree left to
+// right, the FIRST Error carries the first offending token - detection and placement are right -
+// and that very Error was delivered, only later than Errors of productions that were reduced
+// before the one holding it. A wrong blame (no Error for the first offending token, or that
+// Error not first in the tree) does not match.
+func treeOrderSignature(r pgo.Result, fb int) bool {
+	if !r.OK || r.Panic != "" {
+		return false
+	}
+	m := errLeaf.FindStringSubmatch(r.Tree)
+	if m == nil {
+		return false
+	}
+	first, _ := strconv.Atoi(m[1])
+	if first != fb {
+		return false
+	}
+	for _, t := range r.ErrToks {
+		if t == fb {
+			return true
+		}
+	}
+	return false
 }
 
 func TestC09(t *testing.T) {
